@@ -322,6 +322,22 @@ def check_splice(facts):
                     insb = (exp or ins)
                     if insb:
                         musts.append(("the insertion of the replacement", insb[0]))
+                    # the loop ends only when the iterator of matches is exhausted (no `break`)
+                    for x in sorted(ns):
+                        for y in succ.get(x, []):
+                            if y in ns:
+                                continue
+                            tx = b.blocks[x]["t"]
+                            exhausted = False
+                            if tx["k"] == "switch" and tx["discr"].get("k") in ("copy", "move"):
+                                dd = b.single_def(tx["discr"]["pl"]["l"])
+                                if dd and dd[2] == "assign" and dd[3]["rv"]["k"] == "discr":
+                                    src = b.single_def(dd[3]["rv"]["pl"]["l"])
+                                    if src and src[2] == "call" and (src[3].get("callee") or "").endswith("Iterator::next"):
+                                        exhausted = True
+                            if not exhausted and y in b.reachable() and not b.blocks[y].get("cleanup"):
+                                probs.append("the loop over matches is left at line %s before the match iterator is exhausted (a `break`): the "
+                                             "remaining matches are not replaced" % (tx.get("line") or b.blocks[y]["t"].get("line")))
                     for what, blk in musts:
                         seen, stack, skipped = set(), [x for x in succ.get(h, []) if x in ns], False
                         while stack:
@@ -467,6 +483,23 @@ def check_scanner(facts):
                 r.fail(key, "the template character consumed at line %s is thrown away without having been recognised by a test on the peeked "
                             "character (it sits on a default/else edge): an ordinary character after `$` is swallowed" % t.get("line"),
                        facts.loc(fn, t.get("line")))
+    # the guard that opens a `$N` reference and the loop that reads its digits classify characters with one predicate
+    preds = {}
+    for fn in sorted(fns):
+        b = facts.body(fn)
+        for bb, t in b.iter_calls():
+            cal = t.get("callee") or ""
+            if "char::methods" in cal and cal.split("::")[-1].startswith("is_"):
+                preds.setdefault(cal.split("::")[-1], []).append(t.get("line"))
+    key = "%s digit predicate" % root
+    if len(preds) == 1:
+        r.ok(key, "%s at lines %s" % list(preds.items())[0])
+    elif len(preds) > 1:
+        r.fail(key, "the template scanner classifies characters with different predicates %s: the arm that opens a `$N` reference and the "
+                    "loop that reads its digits disagree about what a digit is (`$` + a non-ASCII numeric character enters the arm, reads no "
+                    "digit and inserts group 0)" % {k: v for k, v in sorted(preds.items())}, facts.loc(root, sorted(preds.items())[0][1][0]))
+    else:
+        r.error("no character predicate found in the template scanner")
     r.floor("discarding_next_calls", nd, 3)
     r.floor("peek_calls", npeek, 2)
     return r
